@@ -82,7 +82,7 @@ func Userinfo(r *rand.Rand) string {
 	}
 }
 
-var ldhLabels = []string{"a", "b", "h", "example", "com", "org", "www", "x-y", "a1", "1a", "-a", "a-", "a--b", "ab--c", "localhost", "xn--nxasmq6b", "xn--a", "xn--", "XN--NXASMQ6B", "xn--ab-miv", "xn--fa-hia", "xn--zca",
+var ldhLabels = []string{"a", "b", "h", "example", "com", "org", "www", "x-y", "a1", "1a", "-a", "a-", "a--b", "ab--c", "localhost", "xn--nxasmq6b", "xn--a", "xn--", "XN--NXASMQ6B", "xn--ab-miv", "xn--fa-hia", "xn--zca", "xn--xn----", "xn--xn---", "xn--abc-", "xn--xn--a-", "Xn--Xn--nxasmq6b-",
 	"test", "EXAMPLE", "ExAmPlE", "a_b", "a!b", "a$b", "a&b", "a'b", "a(b)", "a*b", "a+b", "a,b", "a;b", "a=b", "a~b", "a{b}", "a\"b", "a`b"}
 
 var numberLabels = []string{"0", "1", "7", "9", "10", "127", "255", "256", "0x", "0X", "0x0", "0x7f", "0xff", "0x100", "0XFF", "00", "01", "07", "08", "09", "010", "0377", "0400",
